@@ -46,13 +46,6 @@ theorem u32le_of_slice (b : Bytes) (off v : Nat) (hv : v < 2 ^ 32) (h : slice b 
   have : (256 : Nat) ^ 4 = 2 ^ 32 := by decide
   rw [show le32 v = leEnc 4 v from rfl, leDec_leEnc 4 v (by omega)]
 
-/-- a slice of a slice -/
-theorem slice_slice (b : Bytes) (o n o' n' : Nat) (h : o' + n' ≤ n) : slice (slice b o n) o' n' = slice b (o + o') n' := by
-  unfold slice
-  rw [List.drop_take, List.take_take, List.drop_drop]
-  congr 1
-  omega
-
 /-- what the ROM-side reader has to see for a model command -/
 def toR : Cmd → RCmd
   | .insKey fl cf alg src tgt loc => .insKey fl cf alg src tgt loc
